@@ -909,7 +909,69 @@ def c20_plots(inp):
     return {"reproduced": False, "detail": "stabilisation / cluster / singular-value diagrams draw exactly the expected markers and curves on 40 random tables; class methods plot"}
 
 
-DRIVERS = {"c20_plots": c20_plots, "c18_indicators": c18_indicators, "c13_sdest": c13_sdest, "c04_preger": c04_preger, "c03_split": c03_split, "c14_sequences": c14_sequences, "c16_dialog": c16_dialog, "c02_merge": c02_merge, "c09_run": c09_run, "c10_run": c10_run, "c10_fn": c10_fn}
+# ----------------------------------------------------------------------------------
+# C06: per-line SVD faithful; FDD picks the dominant line in the band
+# ----------------------------------------------------------------------------------
+
+def c06_fdd(inp):
+    from pyoma2.functions import fdd
+    rng = np.random.RandomState(6)
+    for trial in range(60):
+        nr = int(rng.randint(2, 6))
+        nc = nr if trial % 3 else int(rng.randint(1, nr + 1))
+        nf = int(rng.randint(3, 12))
+        G = rng.randn(nr, nc, nf) + 1j * rng.randn(nr, nc, nf)
+        if trial % 2 == 0 and nr == nc:          # Hermitian PSD (full spectrum); otherwise a half-spectrum-like general matrix
+            G = np.einsum("ikf,jkf->ijf", G, G.conj())
+        try:
+            S_val, S_vec = fdd.SD_svalsvec(G.copy())
+        except Exception as e:      # noqa: BLE001
+            return {"reproduced": True, "detail": f"SD_svalsvec raised {type(e).__name__}: {e}"}
+        for f_ in range(nf):
+            sv_true = np.sqrt(np.clip(np.sort(np.linalg.eigvalsh(G[:, :, f_] @ G[:, :, f_].conj().T))[::-1][:nc], 0, None))
+            got = np.diag(S_val[:, :, f_])
+            cand = [got, got ** 2]
+            if not any(np.allclose(c_, sv_true, rtol=1e-6, atol=1e-9) for c_ in cand) or np.any(np.diff(got) > 1e-9) or np.any(got < -1e-12):
+                return {"reproduced": True, "detail": f"SD_svalsvec: stored values at line {f_} are not the (square roots of the) singular values of the "
+                                                      f"{'Hermitian' if trial % 2 == 0 and nr == nc else 'general'} {nr}x{nc} spectral matrix: {np.round(got, 4).tolist()} vs sqrt-sv {np.round(np.sqrt(sv_true), 4).tolist()}"}
+            U = S_vec[:, :, f_].conj().T
+            if not np.allclose(U.conj().T @ U, np.eye(nr), atol=1e-8):
+                return {"reproduced": True, "detail": "SD_svalsvec: stored vectors are not unitary"}
+            u0 = np.linalg.svd(G[:, :, f_])[0][:, 0]
+            if abs(abs(np.vdot(u0, U[:, 0])) - 1) > 1e-6:
+                return {"reproduced": True, "detail": f"SD_svalsvec: first stored vector at line {f_} is not the dominant singular vector (|<u,v>| = {abs(np.vdot(u0, U[:, 0])):.4f})"}
+    for trial in range(300):
+        nch, nf = int(rng.randint(2, 6)), int(rng.randint(8, 40))
+        delta = float(rng.choice([0.1, 0.5, 1.0]))
+        freq = np.arange(nf) * delta
+        Sval = np.zeros((nch, nch, nf))
+        s1 = rng.rand(nf) + 0.5
+        s2 = (rng.rand(nf) * 0.4 + 0.05)
+        Sval[0, 0], Sval[1, 1] = s1, s2
+        Svec = rng.randn(nch, nch, nf) + 1j * rng.randn(nch, nch, nf)
+        sel = [float(rng.uniform(freq[0], freq[-1])) for _ in range(3)]
+        DF = float(delta * rng.uniform(1.0, 3.5))
+        try:
+            Fn, Phi = fdd.FDD_mpe(Sval.copy(), Svec.copy(), freq.copy(), list(sel), DF)
+        except Exception as e:      # noqa: BLE001
+            return {"reproduced": True, "detail": f"FDD_mpe raised {type(e).__name__}: {e} (sel={sel}, DF={DF})"}
+        for j, f0 in enumerate(sel):
+            band = np.where((freq >= f0 - DF) & (freq <= f0 + DF))[0]
+            ratio = s1[band] / s2[band]
+            best = band[int(np.argmax(ratio))]
+            if np.sum(np.isclose(ratio, ratio.max(), rtol=1e-12)) > 1:
+                continue
+            if abs(Fn[j] - freq[best]) > 1e-12:
+                return {"reproduced": True, "detail": f"FDD_mpe: for f={f0:.4f}, DF={DF:.4f} on a grid of spacing {delta} the picked line is {Fn[j]:.4f} "
+                                                      f"({'outside' if not (f0 - DF <= Fn[j] <= f0 + DF) else 'inside'} the band); the dominant line of the band is {freq[best]:.4f}"}
+            v = Svec[0, :, best]
+            want = v / v[np.argmax(np.abs(v))]
+            if not np.allclose(Phi[:, j], want, atol=1e-12):
+                return {"reproduced": True, "detail": "FDD_mpe: shape is not the stored first singular vector at the picked line, unity-normalised"}
+    return {"reproduced": False, "detail": "SD_svalsvec is a faithful per-line decomposition on 60 matrices; FDD_mpe picks the dominant in-band line on 300 random spectra"}
+
+
+DRIVERS = {"c06_fdd": c06_fdd, "c20_plots": c20_plots, "c18_indicators": c18_indicators, "c13_sdest": c13_sdest, "c04_preger": c04_preger, "c03_split": c03_split, "c14_sequences": c14_sequences, "c16_dialog": c16_dialog, "c02_merge": c02_merge, "c09_run": c09_run, "c10_run": c10_run, "c10_fn": c10_fn}
 
 
 def main():
